@@ -92,3 +92,20 @@ Theorem C13_400_from_query : forall (tok_rp tok_agg tok_trait tok_rc tok_name : 
   list_rps_result v f d = None <-> names_known d f = false.
 Proof. exact c13q_listing_400_iff. Qed.
 Print Assumptions C13_400_from_query.
+
+(* ------------------------------------------------------------------------------------------------------------------
+   End to end (Proofs/C03z.v): from the query string to "exactly the providers meeting every supplied filter", in every state
+   reached by any requests; what remains is the existence of the named traits and classes - otherwise, and only then, 400. *)
+(* the listing twin of C03_end_to_end *)
+From PV Require Import Spec.CandSpec Proofs.Defs Model.Parse Model.DecodeQ Model.DecodeQC.
+From PV Require Import Proofs.C02 Proofs.C02m Proofs.C02c Proofs.C03s Proofs.C03c Proofs.C03q Proofs.C03u Proofs.C03uq Proofs.C03w
+                       Proofs.C03x Proofs.C02s Proofs.C20c Proofs.C13q Proofs.C03z.
+Theorem C13_end_to_end : forall cf l (tok_rp tok_agg tok_trait tok_rc tok_name : str -> Z) v kv f,
+  decode_listing tok_rp tok_agg tok_trait tok_rc tok_name v kv = POk f ->
+  let d := run cf db0 l in
+  rp_filters_wf v f = true /\
+  (list_rps_result v f d = None <-> names_known d f = false) /\
+  (filters_known d f ->
+   forall u, In u (list_rps v f d) <-> (exists r, find_rp d u = Some r) /\ rp_matches v f d u = true).
+Proof. exact c13_end_to_end. Qed.
+Print Assumptions C13_end_to_end.
